@@ -28,6 +28,8 @@ class TooManyPaths(Exception):
 def _origin_key(body, op, view=None):
     if op[0] == "const":
         c = op[1]
+        if "def" in c and c.get("val") is not None:
+            return "const:%s=%s" % (c["def"], c["val"])
         if "val" in c:
             return "const:%s" % c["val"]
         return "const:%s" % (c.get("def") or c.get("str") or c.get("repr"))
@@ -387,20 +389,10 @@ class Explorer:
             return ("value", _origin_key(b, o, self.view))
         if r[0] == "agg" and r[1][0] == "adt":
             inner = None
-            if r[2]:
-                o = r[2][0]
-                if o[0] == "const":
-                    inner = ("const", o[1].get("val", o[1].get("def") or o[1].get("repr")))
-                elif not o[1]["p"] and o[1]["l"] in env:
-                    inner = ("const", env[o[1]["l"]])
-                else:
-                    ds = b.defs().get(o[1]["l"], []) if not o[1]["p"] else []
-                    if len(ds) == 1 and ds[0][2] == "assign":
-                        inner = self._classify(ds[0][3]["r"], env, bi)
-                    elif len(ds) == 1 and ds[0][2] == "call":
-                        inner = self._classify(["use", o], env, bi)
-                    else:
-                        inner = ("value", _origin_key(b, o, self.view))
+            if r[2] and _depth(env) < 12:
+                env4 = dict(env)
+                env4["__depth"] = _depth(env) + 1
+                inner = self._classify(["use", r[2][0]], env4, bi)
             allf = None
             if len(r[2]) > 1 and _depth(env) < 10:
                 env3 = dict(env)
@@ -449,6 +441,13 @@ def _fmt_key(k):
     if k[0] == "not":
         return "!%s" % _fmt_key(k[1])
     return str(k)
+
+
+def const_of_key(s):
+    """numeric value of a constant operand key ('const:4', 'const:path::NAME=4'), else None"""
+    import re as _re
+    m = _re.fullmatch(r"const:(?:[^=]*=)?(-?\d+)", s or "")
+    return int(m.group(1)) if m else None
 
 
 def short(v):
